@@ -98,6 +98,12 @@ def corpus_iter(tier, seed, derives=('EnumIter', 'EnumCount')):
     for v in out[-1].variants:
         v.serialize = [v.ident.lower()]
     out[-1].attr_layout = 'split'
+    # counts at the boundaries of narrow integer types (a cursor must also hold the one-past-the-end value)
+    for n in (255, 256):
+        p = Program(nm.next('It'), [Variant('V%d' % i) for i in range(n)], derives=list(derives))
+        p.std_derives = ['Debug', 'PartialEq']
+        p.tags = ['N=%d' % n, 'boundary']
+        out.append(p)
     if tier == 'quick':
         return add_noise(out)
     # every placement of 0..2 disabled variants for N <= 4, alternating kinds
@@ -410,6 +416,14 @@ def corpus_parse(tier, seed, focus='C01', nm=None):
     #    (for the shared input the property does not say who wins; every other input is decided)
     p = A([V('LowerFirst', ser=['mb']), V('Mega', ser=['MB'], aci=True), V('Kilo', ser=['KB'], aci=True), V('LowerLast', ser=['kb'])])
     p.tags.append('overlap')
+    # 22 spellings that are prefixes of each other followed by a space / '!' (title_case), and spellings with characters that are
+    #    escaped in source text (quote, backslash, newline, tab)
+    A([V('Dark'), V('DarkBlue'), V('DarkBlueSky'), V('D')], serialize_all='title_case')
+    A([V('Quote', ser=['say "hi"']), V('Back', ser=['a\\b', 'a']), V('Line', ser=['two\nlines']), V('Bang', ser=['a!', 'a b']), V('Tab', ts='t\tab')])
+    # 23 a case-insensitive spelling with non-ASCII upper-case letters
+    A([V('Ecole', ser=['\u00c9cole'], aci=True), V('Strasse', ser=['Stra\u00dfe'], aci=True), V('Plain')])
+    # 24 eight case-sensitive spellings and a custom error
+    A([V(x) for x in ('Alpha', 'Bravo', 'Charlie', 'Delta', 'Echo', 'Foxtrot', 'Golf', 'Hotel', 'India')], parse_err_ty='PErr', parse_err_fn='perr')
     if tier == 'quick':
         return out
     styles = [None, 'snake_case', 'SCREAMING_SNAKE_CASE', 'kebab-case', 'camelCase', 'PascalCase', 'lowercase', 'UPPERCASE', 'title_case', 'mixed_case', 'Train-Case', 'SCREAMING-KEBAB-CASE']
@@ -698,6 +712,7 @@ def corpus_props(tier, seed):
     A([V('NoProps'), V('Gone', disabled=True)])
     A([P(V('Level'), [('level', 'top')], [('level', 3)], [('level', True)]), P(V('IdStr'), [('id', '7'), ('on', 'true')]), P(V('IdInt'), [('id', 7), ('on', True)]),
        P(V('IdStr2', 'tuple', ['u8']), [('id', '7'), ('on', 'true')])]).attr_layout = 'split'
+    A([P(V('DarkRed'), [('Teacher', 'x'), ('isMandatory', True), ('snake_key', 3)]), P(V('LightBlue'), [('Teacher', 4)])], serialize_all='snake_case')
     if tier == 'quick':
         return out
     keys = ['a', 'b', 'c', 'color', 'Type', 'x1']
@@ -746,6 +761,7 @@ def corpus_agree(tier, seed):
     A([V('X%d' % i) for i in range(8)], serialize_all='SCREAMING_SNAKE_CASE')
     A([V('Dog'), V('Cat', ser=['kitty'], disabled=True), V('Fish', ts='fishy'), V('Bird', aci=True, disabled=True)], serialize_all='lowercase').attr_layout = 'split'
     A([V('Dog', ser=['d']), V('Cat', ser=['kitty'], disabled=True), V('Fish')], derives=('EnumCount', 'EnumIter', 'VariantNames')).attr_layout = 'split_rev'
+    A([V('Yes', ser=['oui']), V('Unset', ser=['']), V('No', ts='')])
     if tier == 'quick':
         return out
     styles = [None, 'kebab-case', 'camelCase', 'UPPERCASE', 'Train-Case']
@@ -818,13 +834,15 @@ def corpus_case(tier, seed):
         idx = 0
         for e in range(n_enums):
             vs, seen = [], set()
+            ci_enum = (e % 2 == 1)
             while len(vs) < per and idx < len(pool):
                 w = pool[idx]
                 idx += 1
                 key = oracle.convert_case(style, w)
-                if key in seen or key == '' or key in ('explicit-Stays', 'Keep_Me', 'to_String_Kept', 'KeepMe', 'StayPut'):
+                fkey = oracle.fold(key) if ci_enum else key
+                if fkey in seen or key == '' or oracle.fold(key) in ('explicit-stays', 'keep_me', 'to_string_kept', 'keepme', 'stayput'):
                     continue
-                seen.add(key)
+                seen.add(fkey)
                 vs.append(V(w))
             if not vs:
                 break
@@ -833,7 +851,7 @@ def corpus_case(tier, seed):
             vs.append(V('StayPut', ts='StayPut'))
             vs.append(V('ExplicitSer', ser=['explicit-Stays']))
             vs.append(V('ExplicitTs', ts='to_String_Kept', ser=['Keep_Me']))
-            p = parse_prog(nm, vs, stem='Dw', derives=('VariantNames', 'Display', 'AsRefStr', 'IntoStaticStr', 'EnumString', 'EnumMessage'), serialize_all=style)
+            p = parse_prog(nm, vs, stem='Dw', derives=('VariantNames', 'Display', 'AsRefStr', 'IntoStaticStr', 'EnumString', 'EnumMessage'), serialize_all=style, aci=ci_enum)
             p.std_derives = ['Debug', 'PartialEq']
             p.tags = ['style=' + style, 'dictionary']
             out.append(p)
@@ -876,6 +894,8 @@ def corpus_phf(tier, seed):
     A([V('Red', ser=['red']), V('Blue', ser=['blue'], aci=True), V('Top', ser=['TOP'])])
     # overlapping spellings (outside C01's domain, but the plain twin is the oracle here: first declared wins in both)
     A([V('Any', ser=['any'], aci=True), V('Upper', ser=['ANY']), V('Dup', ser=['any'])])
+    # several case-insensitive spellings of different lengths, the longest neither first nor last; mostly-upper-case spellings
+    A([V('Red'), V('Yellow'), V('Blue'), V('Ok', ser=['Ok', 'ERR'])], aci=True)
     if tier == 'quick':
         return out
     styles = [None, 'snake_case', 'SCREAMING_SNAKE_CASE', 'kebab-case', 'lowercase', 'UPPERCASE', 'camelCase']
